@@ -59,7 +59,7 @@ BUILT.update({
     "C03": (CONT + "corollary wfB(image)=true; + seeded and exhaustive history correspondence (incl. one block object through its whole life in a file, a long-lived Tdf object pausing while other objects change the file, well-formed non-compact start files) with Lean's wfB judging the real bytes after every call",
             "Proof over the model for every finite history from every compact start state and every table length; tied to /repo by running seeded histories on real files and on the model, comparing the file abstraction and Tdf.entries after every call; Lean's decidable WF predicate judges the real bytes.",
             NOTE + " Start states are compact files; blocks are assumed to satisfy C02 (honest sizes); files stay below 2 GiB.", "DESIGN.md §6 container"),
-    "C04": (CONT + "frame theorems on the list spec (other types untouched, removed absent, replace keeps comment) and payload_read; + reference-dict oracle on real files, incl. block objects handed over again after in-place edits",
+    "C04": (CONT + "frame theorems on the list spec (other types untouched, removed absent, replace keeps comment) and payload_read; add_stores_any (on ANY state the new entry sits in the first unused slot and its byte range reads back what was written); + reference-dict oracle on real files, incl. block objects handed over again after in-place edits",
             "Proof over the model (frame conditions are list lemmas after the refinement); real files are parsed independently after every call and compared with a python reference of the history, plus read-back through get_block.",
             NOTE, "DESIGN.md §6 container"),
     "C07": ("Lean 4 theorems: add/remove rejected => state unchanged for EVERY state and cause; every refused call (add, remove, replace, setter) at every point of every history from ANY table with one block per type leaves the state unchanged (history_rejected_unchanged_any); replace/setters atomic on well-formed layouts (add cannot fail after the remove); continuation equivalence; + fault-injection correspondence (sha before/after, twin file; causes incl. dates that do not fit the on-disk field)",
@@ -71,7 +71,7 @@ BUILT.update({
     "C10": (CONT + "corollaries disk = view after every step (also as an invariant of every call and history on ANY state, no layout assumed: history_nothing_pending_any), decTable(disk) = in-memory entries, openFile(disk) = same object; + three-observer correspondence after every call",
             "Proof over the model (write buffering modelled as view/disk with explicit flush); on the real code Tdf.entries, an independent read inside the context, the file after close and reads through the open object are compared after every call.",
             NOTE + " When CPython flushes by itself is not modelled.", "DESIGN.md §6 container"),
-    "C11": (CONT + "corollaries Nodup of live types, duplicate add refused on any state, setter = replace-or-add, accessors as functions of the block list; + accessor matrix on real files at every intermediate state",
+    "C11": (CONT + "corollaries Nodup of live types, duplicate add refused on any state, setter = replace-or-add, accessors as functions of the block list; on ANY table with one block per type: has_x false after a removal, true after an accepted add (removed_absent_any, added_present_any); + accessor matrix on real files at every intermediate state",
             "Proof over the model; on the real code every accessor (has_*, len, get_block by type/index, [], blocks, getters) is evaluated after every call and compared with an independent parse; duplicate add must raise ValueError.",
             NOTE, "DESIGN.md §6 container"),
 })
